@@ -426,7 +426,7 @@ def run_check(prop, tier, verif_seed, n_runs=None, wall=None, procs=None,
                      '(indices %s)' % (agg['timeouts'], os.environ.get(
                          'DST_RUN_TIMEOUT', '30'),
                          sorted(agg['timeout_indices'])[:10]))
-        if agg['timeouts'] > max(3, 0.01 * agg['runs']) and exit_code == 0:
+        if agg['timeouts'] > max(5, 0.02 * agg['runs']) and exit_code == 0:
             lines.append('HARNESS-ERROR too many abandoned runs')
             exit_code = 2
     if agg['runs'] == 0 and exit_code == 0:
